@@ -10145,6 +10145,984 @@ let rec ideal salt i = function
   let (p, c) = p0 in
   app p (app (divider_line salt i c) (ideal salt (N.add i (Npos XH)) r))
 
+(** val u64 : n **)
+
+let u64 =
+  Npos (XO (XO (XO (XO (XO (XO (XO (XO (XO (XO (XO (XO (XO (XO (XO (XO (XO
+    (XO (XO (XO (XO (XO (XO (XO (XO (XO (XO (XO (XO (XO (XO (XO (XO (XO (XO
+    (XO (XO (XO (XO (XO (XO (XO (XO (XO (XO (XO (XO (XO (XO (XO (XO (XO (XO
+    (XO (XO (XO (XO (XO (XO (XO (XO (XO (XO (XO
+    XH))))))))))))))))))))))))))))))))))))))))))))))))))))))))))))))))
+
+(** val nANOS : n **)
+
+let nANOS =
+  Npos (XO (XO (XO (XO (XO (XO (XO (XO (XO (XI (XO (XI (XO (XO (XI (XI (XO
+    (XI (XO (XI (XI (XO (XO (XI (XI (XI (XO (XI (XI
+    XH)))))))))))))))))))))))))))))
+
+(** val y_SECS : n **)
+
+let y_SECS =
+  Npos (XO (XO (XO (XO (XO (XI (XI (XI (XI (XI (XI (XO (XO (XO (XO (XI (XI
+    (XO (XO (XO (XO (XI (XI (XI XH))))))))))))))))))))))))
+
+(** val mO_SECS : n **)
+
+let mO_SECS =
+  Npos (XO (XO (XO (XO (XO (XO (XO (XI (XI (XO (XO (XO (XO (XI (XO (XO (XO
+    (XO (XO (XI (XO XH)))))))))))))))))))))
+
+(** val s_YEAR : n list **)
+
+let s_YEAR =
+  (Npos (XI (XO (XO (XI (XI (XI XH))))))) :: ((Npos (XI (XO (XI (XO (XO (XI
+    XH))))))) :: ((Npos (XI (XO (XO (XO (XO (XI XH))))))) :: ((Npos (XO (XI
+    (XO (XO (XI (XI XH))))))) :: [])))
+
+(** val s_MONTH : n list **)
+
+let s_MONTH =
+  (Npos (XI (XO (XI (XI (XO (XI XH))))))) :: ((Npos (XI (XI (XI (XI (XO (XI
+    XH))))))) :: ((Npos (XO (XI (XI (XI (XO (XI XH))))))) :: ((Npos (XO (XO
+    (XI (XO (XI (XI XH))))))) :: ((Npos (XO (XO (XO (XI (XO (XI
+    XH))))))) :: []))))
+
+(** val s_DAY : n list **)
+
+let s_DAY =
+  (Npos (XO (XO (XI (XO (XO (XI XH))))))) :: ((Npos (XI (XO (XO (XO (XO (XI
+    XH))))))) :: ((Npos (XI (XO (XO (XI (XI (XI XH))))))) :: []))
+
+(** val s_H : n list **)
+
+let s_H =
+  (Npos (XO (XO (XO (XI (XO (XI XH))))))) :: []
+
+(** val s_M : n list **)
+
+let s_M =
+  (Npos (XI (XO (XI (XI (XO (XI XH))))))) :: []
+
+(** val s_S : n list **)
+
+let s_S =
+  (Npos (XI (XI (XO (XO (XI (XI XH))))))) :: []
+
+(** val s_MS : n list **)
+
+let s_MS =
+  (Npos (XI (XO (XI (XI (XO (XI XH))))))) :: ((Npos (XI (XI (XO (XO (XI (XI
+    XH))))))) :: [])
+
+(** val s_US : n list **)
+
+let s_US =
+  (Npos (XI (XO (XI (XO (XI (XI XH))))))) :: ((Npos (XI (XI (XO (XO (XI (XI
+    XH))))))) :: [])
+
+(** val s_NS : n list **)
+
+let s_NS =
+  (Npos (XO (XI (XI (XI (XO (XI XH))))))) :: ((Npos (XI (XI (XO (XO (XI (XI
+    XH))))))) :: [])
+
+(** val item_text : n -> n list -> bool -> n list **)
+
+let item_text v name plural =
+  app (dec v)
+    (app name
+      (if (&&) plural (N.ltb (Npos XH) v)
+       then (Npos (XI (XI (XO (XO (XI (XI XH))))))) :: []
+       else []))
+
+(** val dchain : bool -> ((n * n list) * bool) list -> n list **)
+
+let rec dchain started = function
+| [] -> []
+| p :: r ->
+  let (p0, pl) = p in
+  let (v, name) = p0 in
+  if N.ltb N0 v
+  then app (if started then (Npos (XO (XO (XO (XO (XO XH)))))) :: [] else [])
+         (app (item_text v name pl) (dchain true r))
+  else dchain started r
+
+(** val dur_items : n -> n -> ((n * n list) * bool) list **)
+
+let dur_items secs nanos =
+  let years = N.div secs y_SECS in
+  let ydays = N.modulo secs y_SECS in
+  let months = N.div ydays mO_SECS in
+  let mdays = N.modulo ydays mO_SECS in
+  let days =
+    N.div mdays (Npos (XO (XO (XO (XO (XO (XO (XO (XI (XI (XO (XO (XO (XI (XO
+      (XI (XO XH)))))))))))))))))
+  in
+  let day_secs =
+    N.modulo mdays (Npos (XO (XO (XO (XO (XO (XO (XO (XI (XI (XO (XO (XO (XI
+      (XO (XI (XO XH)))))))))))))))))
+  in
+  let hours =
+    N.div day_secs (Npos (XO (XO (XO (XO (XI (XO (XO (XO (XO (XI (XI
+      XH))))))))))))
+  in
+  let minutes =
+    N.div
+      (N.modulo day_secs (Npos (XO (XO (XO (XO (XI (XO (XO (XO (XO (XI (XI
+        XH))))))))))))) (Npos (XO (XO (XI (XI (XI XH))))))
+  in
+  let seconds = N.modulo day_secs (Npos (XO (XO (XI (XI (XI XH)))))) in
+  let millis =
+    N.div nanos (Npos (XO (XO (XO (XO (XO (XO (XI (XO (XO (XI (XO (XO (XO (XO
+      (XI (XO (XI (XI (XI XH))))))))))))))))))))
+  in
+  let micros =
+    N.modulo
+      (N.div nanos (Npos (XO (XO (XO (XI (XO (XI (XI (XI (XI XH)))))))))))
+      (Npos (XO (XO (XO (XI (XO (XI (XI (XI (XI XH))))))))))
+  in
+  let nanosec =
+    N.modulo nanos (Npos (XO (XO (XO (XI (XO (XI (XI (XI (XI XH))))))))))
+  in
+  ((years, s_YEAR), true) :: (((months, s_MONTH), true) :: (((days, s_DAY),
+  true) :: (((hours, s_H), false) :: (((minutes, s_M), false) :: (((seconds,
+  s_S), false) :: (((millis, s_MS), false) :: (((micros, s_US),
+  false) :: (((nanosec, s_NS), false) :: []))))))))
+
+(** val format_duration : n -> n -> n list **)
+
+let format_duration secs nanos =
+  if (&&) (N.eqb secs N0) (N.eqb nanos N0)
+  then (Npos (XO (XO (XO (XO (XI XH)))))) :: ((Npos (XI (XI (XO (XO (XI (XI
+         XH))))))) :: [])
+  else dchain false (dur_items secs nanos)
+
+type unit_t =
+| UNano
+| UMicro
+| UMilli
+| USec
+| UMin
+| UHour
+| UDay
+| UWeek
+| UMonth
+| UYear
+
+(** val unit_table : (n list * unit_t) list **)
+
+let unit_table =
+  (((Npos (XO (XI (XI (XI (XO (XI XH))))))) :: ((Npos (XI (XO (XO (XO (XO (XI
+    XH))))))) :: ((Npos (XO (XI (XI (XI (XO (XI XH))))))) :: ((Npos (XI (XI
+    (XI (XI (XO (XI XH))))))) :: ((Npos (XI (XI (XO (XO (XI (XI
+    XH))))))) :: []))))), UNano) :: ((((Npos (XO (XI (XI (XI (XO (XI
+    XH))))))) :: ((Npos (XI (XI (XO (XO (XI (XI XH))))))) :: ((Npos (XI (XO
+    (XI (XO (XO (XI XH))))))) :: ((Npos (XI (XI (XO (XO (XO (XI
+    XH))))))) :: [])))), UNano) :: ((((Npos (XO (XI (XI (XI (XO (XI
+    XH))))))) :: ((Npos (XI (XI (XO (XO (XI (XI XH))))))) :: [])),
+    UNano) :: ((((Npos (XI (XO (XI (XO (XI (XI XH))))))) :: ((Npos (XI (XI
+    (XO (XO (XI (XI XH))))))) :: ((Npos (XI (XO (XI (XO (XO (XI
+    XH))))))) :: ((Npos (XI (XI (XO (XO (XO (XI XH))))))) :: [])))),
+    UMicro) :: ((((Npos (XI (XO (XI (XO (XI (XI XH))))))) :: ((Npos (XI (XI
+    (XO (XO (XI (XI XH))))))) :: [])), UMicro) :: ((((Npos (XI (XO (XI (XO
+    (XI (XI (XO XH)))))))) :: ((Npos (XI (XI (XO (XO (XI (XI
+    XH))))))) :: [])), UMicro) :: ((((Npos (XI (XO (XI (XI (XO (XI
+    XH))))))) :: ((Npos (XI (XO (XO (XI (XO (XI XH))))))) :: ((Npos (XO (XO
+    (XI (XI (XO (XI XH))))))) :: ((Npos (XO (XO (XI (XI (XO (XI
+    XH))))))) :: ((Npos (XI (XO (XO (XI (XO (XI XH))))))) :: ((Npos (XI (XI
+    (XO (XO (XI (XI XH))))))) :: [])))))), UMilli) :: ((((Npos (XI (XO (XI
+    (XI (XO (XI XH))))))) :: ((Npos (XI (XI (XO (XO (XI (XI
+    XH))))))) :: ((Npos (XI (XO (XI (XO (XO (XI XH))))))) :: ((Npos (XI (XI
+    (XO (XO (XO (XI XH))))))) :: [])))), UMilli) :: ((((Npos (XI (XO (XI (XI
+    (XO (XI XH))))))) :: ((Npos (XI (XI (XO (XO (XI (XI XH))))))) :: [])),
+    UMilli) :: ((((Npos (XI (XI (XO (XO (XI (XI XH))))))) :: ((Npos (XI (XO
+    (XI (XO (XO (XI XH))))))) :: ((Npos (XI (XI (XO (XO (XO (XI
+    XH))))))) :: ((Npos (XI (XI (XI (XI (XO (XI XH))))))) :: ((Npos (XO (XI
+    (XI (XI (XO (XI XH))))))) :: ((Npos (XO (XO (XI (XO (XO (XI
+    XH))))))) :: ((Npos (XI (XI (XO (XO (XI (XI XH))))))) :: []))))))),
+    USec) :: ((((Npos (XI (XI (XO (XO (XI (XI XH))))))) :: ((Npos (XI (XO (XI
+    (XO (XO (XI XH))))))) :: ((Npos (XI (XI (XO (XO (XO (XI
+    XH))))))) :: ((Npos (XI (XI (XI (XI (XO (XI XH))))))) :: ((Npos (XO (XI
+    (XI (XI (XO (XI XH))))))) :: ((Npos (XO (XO (XI (XO (XO (XI
+    XH))))))) :: [])))))), USec) :: ((((Npos (XI (XI (XO (XO (XI (XI
+    XH))))))) :: ((Npos (XI (XO (XI (XO (XO (XI XH))))))) :: ((Npos (XI (XI
+    (XO (XO (XO (XI XH))))))) :: ((Npos (XI (XI (XO (XO (XI (XI
+    XH))))))) :: [])))), USec) :: ((((Npos (XI (XI (XO (XO (XI (XI
+    XH))))))) :: ((Npos (XI (XO (XI (XO (XO (XI XH))))))) :: ((Npos (XI (XI
+    (XO (XO (XO (XI XH))))))) :: []))), USec) :: ((((Npos (XI (XI (XO (XO (XI
+    (XI XH))))))) :: []), USec) :: ((((Npos (XI (XO (XI (XI (XO (XI
+    XH))))))) :: ((Npos (XI (XO (XO (XI (XO (XI XH))))))) :: ((Npos (XO (XI
+    (XI (XI (XO (XI XH))))))) :: ((Npos (XI (XO (XI (XO (XI (XI
+    XH))))))) :: ((Npos (XO (XO (XI (XO (XI (XI XH))))))) :: ((Npos (XI (XO
+    (XI (XO (XO (XI XH))))))) :: ((Npos (XI (XI (XO (XO (XI (XI
+    XH))))))) :: []))))))), UMin) :: ((((Npos (XI (XO (XI (XI (XO (XI
+    XH))))))) :: ((Npos (XI (XO (XO (XI (XO (XI XH))))))) :: ((Npos (XO (XI
+    (XI (XI (XO (XI XH))))))) :: ((Npos (XI (XO (XI (XO (XI (XI
+    XH))))))) :: ((Npos (XO (XO (XI (XO (XI (XI XH))))))) :: ((Npos (XI (XO
+    (XI (XO (XO (XI XH))))))) :: [])))))), UMin) :: ((((Npos (XI (XO (XI (XI
+    (XO (XI XH))))))) :: ((Npos (XI (XO (XO (XI (XO (XI XH))))))) :: ((Npos
+    (XO (XI (XI (XI (XO (XI XH))))))) :: []))), UMin) :: ((((Npos (XI (XO (XI
+    (XI (XO (XI XH))))))) :: ((Npos (XI (XO (XO (XI (XO (XI
+    XH))))))) :: ((Npos (XO (XI (XI (XI (XO (XI XH))))))) :: ((Npos (XI (XI
+    (XO (XO (XI (XI XH))))))) :: [])))), UMin) :: ((((Npos (XI (XO (XI (XI
+    (XO (XI XH))))))) :: []), UMin) :: ((((Npos (XO (XO (XO (XI (XO (XI
+    XH))))))) :: ((Npos (XI (XI (XI (XI (XO (XI XH))))))) :: ((Npos (XI (XO
+    (XI (XO (XI (XI XH))))))) :: ((Npos (XO (XI (XO (XO (XI (XI
+    XH))))))) :: ((Npos (XI (XI (XO (XO (XI (XI XH))))))) :: []))))),
+    UHour) :: ((((Npos (XO (XO (XO (XI (XO (XI XH))))))) :: ((Npos (XI (XI
+    (XI (XI (XO (XI XH))))))) :: ((Npos (XI (XO (XI (XO (XI (XI
+    XH))))))) :: ((Npos (XO (XI (XO (XO (XI (XI XH))))))) :: [])))),
+    UHour) :: ((((Npos (XO (XO (XO (XI (XO (XI XH))))))) :: ((Npos (XO (XI
+    (XO (XO (XI (XI XH))))))) :: [])), UHour) :: ((((Npos (XO (XO (XO (XI (XO
+    (XI XH))))))) :: ((Npos (XO (XI (XO (XO (XI (XI XH))))))) :: ((Npos (XI
+    (XI (XO (XO (XI (XI XH))))))) :: []))), UHour) :: ((((Npos (XO (XO (XO
+    (XI (XO (XI XH))))))) :: []), UHour) :: ((((Npos (XO (XO (XI (XO (XO (XI
+    XH))))))) :: ((Npos (XI (XO (XO (XO (XO (XI XH))))))) :: ((Npos (XI (XO
+    (XO (XI (XI (XI XH))))))) :: ((Npos (XI (XI (XO (XO (XI (XI
+    XH))))))) :: [])))), UDay) :: ((((Npos (XO (XO (XI (XO (XO (XI
+    XH))))))) :: ((Npos (XI (XO (XO (XO (XO (XI XH))))))) :: ((Npos (XI (XO
+    (XO (XI (XI (XI XH))))))) :: []))), UDay) :: ((((Npos (XO (XO (XI (XO (XO
+    (XI XH))))))) :: []), UDay) :: ((((Npos (XI (XI (XI (XO (XI (XI
+    XH))))))) :: ((Npos (XI (XO (XI (XO (XO (XI XH))))))) :: ((Npos (XI (XO
+    (XI (XO (XO (XI XH))))))) :: ((Npos (XI (XI (XO (XI (XO (XI
+    XH))))))) :: ((Npos (XI (XI (XO (XO (XI (XI XH))))))) :: []))))),
+    UWeek) :: ((((Npos (XI (XI (XI (XO (XI (XI XH))))))) :: ((Npos (XI (XO
+    (XI (XO (XO (XI XH))))))) :: ((Npos (XI (XO (XI (XO (XO (XI
+    XH))))))) :: ((Npos (XI (XI (XO (XI (XO (XI XH))))))) :: [])))),
+    UWeek) :: ((((Npos (XI (XI (XI (XO (XI (XI XH))))))) :: ((Npos (XI (XI
+    (XO (XI (XO (XI XH))))))) :: [])), UWeek) :: ((((Npos (XI (XI (XI (XO (XI
+    (XI XH))))))) :: ((Npos (XI (XI (XO (XI (XO (XI XH))))))) :: ((Npos (XI
+    (XI (XO (XO (XI (XI XH))))))) :: []))), UWeek) :: ((((Npos (XI (XI (XI
+    (XO (XI (XI XH))))))) :: []), UWeek) :: ((((Npos (XI (XO (XI (XI (XO (XI
+    XH))))))) :: ((Npos (XI (XI (XI (XI (XO (XI XH))))))) :: ((Npos (XO (XI
+    (XI (XI (XO (XI XH))))))) :: ((Npos (XO (XO (XI (XO (XI (XI
+    XH))))))) :: ((Npos (XO (XO (XO (XI (XO (XI XH))))))) :: ((Npos (XI (XI
+    (XO (XO (XI (XI XH))))))) :: [])))))), UMonth) :: ((((Npos (XI (XO (XI
+    (XI (XO (XI XH))))))) :: ((Npos (XI (XI (XI (XI (XO (XI
+    XH))))))) :: ((Npos (XO (XI (XI (XI (XO (XI XH))))))) :: ((Npos (XO (XO
+    (XI (XO (XI (XI XH))))))) :: ((Npos (XO (XO (XO (XI (XO (XI
+    XH))))))) :: []))))), UMonth) :: ((((Npos (XI (XO (XI (XI (XO (XO
+    XH))))))) :: []), UMonth) :: ((((Npos (XI (XO (XO (XI (XI (XI
+    XH))))))) :: ((Npos (XI (XO (XI (XO (XO (XI XH))))))) :: ((Npos (XI (XO
+    (XO (XO (XO (XI XH))))))) :: ((Npos (XO (XI (XO (XO (XI (XI
+    XH))))))) :: ((Npos (XI (XI (XO (XO (XI (XI XH))))))) :: []))))),
+    UYear) :: ((((Npos (XI (XO (XO (XI (XI (XI XH))))))) :: ((Npos (XI (XO
+    (XI (XO (XO (XI XH))))))) :: ((Npos (XI (XO (XO (XO (XO (XI
+    XH))))))) :: ((Npos (XO (XI (XO (XO (XI (XI XH))))))) :: [])))),
+    UYear) :: ((((Npos (XI (XO (XO (XI (XI (XI XH))))))) :: ((Npos (XO (XI
+    (XO (XO (XI (XI XH))))))) :: [])), UYear) :: ((((Npos (XI (XO (XO (XI (XI
+    (XI XH))))))) :: ((Npos (XO (XI (XO (XO (XI (XI XH))))))) :: ((Npos (XI
+    (XI (XO (XO (XI (XI XH))))))) :: []))), UYear) :: ((((Npos (XI (XO (XO
+    (XI (XI (XI XH))))))) :: []),
+    UYear) :: [])))))))))))))))))))))))))))))))))))))))
+
+(** val lookup_unit : (n list * unit_t) list -> n list -> unit_t option **)
+
+let rec lookup_unit tbl s =
+  match tbl with
+  | [] -> None
+  | p :: r ->
+    let (k, u) = p in if text_eqb k s then Some u else lookup_unit r s
+
+(** val unit_of : n list -> unit_t option **)
+
+let unit_of s =
+  lookup_unit unit_table s
+
+(** val chk : n -> n option **)
+
+let chk x =
+  if N.ltb x u64 then Some x else None
+
+(** val duration_new : n -> n -> (n * n) option **)
+
+let duration_new sec nsec =
+  match chk (N.add sec (N.div nsec nANOS)) with
+  | Some s -> Some (s, (N.modulo nsec nANOS))
+  | None -> None
+
+(** val add_current : n -> n -> (n * n) -> (n * n) option **)
+
+let add_current sec nsec out =
+  match chk (N.add (snd out) nsec) with
+  | Some ns ->
+    let carried =
+      if N.ltb nANOS ns
+      then ((chk (N.add sec (N.div ns nANOS))), (N.modulo ns nANOS))
+      else ((Some sec), ns)
+    in
+    (match fst carried with
+     | Some sec1 ->
+       (match chk (N.add (fst out) sec1) with
+        | Some sec2 -> duration_new sec2 (snd carried)
+        | None -> None)
+     | None -> None)
+  | None -> None
+
+(** val unit_amount : unit_t -> n -> (n * n) option **)
+
+let unit_amount u n0 =
+  match u with
+  | UNano -> Some (N0, n0)
+  | UMicro ->
+    option_map (fun x -> (N0, x))
+      (chk (N.mul n0 (Npos (XO (XO (XO (XI (XO (XI (XI (XI (XI XH))))))))))))
+  | UMilli ->
+    option_map (fun x -> (N0, x))
+      (chk
+        (N.mul n0 (Npos (XO (XO (XO (XO (XO (XO (XI (XO (XO (XI (XO (XO (XO
+          (XO (XI (XO (XI (XI (XI XH))))))))))))))))))))))
+  | USec -> Some (n0, N0)
+  | UMin ->
+    option_map (fun x -> (x, N0))
+      (chk (N.mul n0 (Npos (XO (XO (XI (XI (XI XH))))))))
+  | UHour ->
+    option_map (fun x -> (x, N0))
+      (chk
+        (N.mul n0 (Npos (XO (XO (XO (XO (XI (XO (XO (XO (XO (XI (XI
+          XH))))))))))))))
+  | UDay ->
+    option_map (fun x -> (x, N0))
+      (chk
+        (N.mul n0 (Npos (XO (XO (XO (XO (XO (XO (XO (XI (XI (XO (XO (XO (XI
+          (XO (XI (XO XH)))))))))))))))))))
+  | UWeek ->
+    option_map (fun x -> (x, N0))
+      (chk
+        (N.mul n0 (Npos (XO (XO (XO (XO (XO (XO (XO (XI (XO (XI (XO (XI (XI
+          (XI (XO (XO (XI (XO (XO XH))))))))))))))))))))))
+  | UMonth -> option_map (fun x -> (x, N0)) (chk (N.mul n0 mO_SECS))
+  | UYear -> option_map (fun x -> (x, N0)) (chk (N.mul n0 y_SECS))
+
+(** val parse_unit : n -> n list -> (n * n) -> (n * n) option **)
+
+let parse_unit n0 unit0 out =
+  match unit_of unit0 with
+  | Some u ->
+    (match unit_amount u n0 with
+     | Some p -> let (s, ns) = p in add_current s ns out
+     | None -> None)
+  | None -> None
+
+(** val is_white0 : n -> bool **)
+
+let is_white0 c =
+  (||)
+    ((||)
+      ((||)
+        ((||)
+          ((||)
+            ((||)
+              ((||)
+                ((||)
+                  ((||)
+                    ((||)
+                      ((&&) (N.leb (Npos (XI (XO (XO XH)))) c)
+                        (N.leb c (Npos (XI (XO (XI XH))))))
+                      (N.eqb c (Npos (XO (XO (XO (XO (XO XH))))))))
+                    (N.eqb c (Npos (XI (XO (XI (XO (XO (XO (XO XH))))))))))
+                  (N.eqb c (Npos (XO (XO (XO (XO (XO (XI (XO XH))))))))))
+                (N.eqb c (Npos (XO (XO (XO (XO (XO (XO (XO (XI (XO (XI (XI
+                  (XO XH)))))))))))))))
+              ((&&)
+                (N.leb (Npos (XO (XO (XO (XO (XO (XO (XO (XO (XO (XO (XO (XO
+                  (XO XH)))))))))))))) c)
+                (N.leb c (Npos (XO (XI (XO (XI (XO (XO (XO (XO (XO (XO (XO
+                  (XO (XO XH)))))))))))))))))
+            (N.eqb c (Npos (XO (XO (XO (XI (XO (XI (XO (XO (XO (XO (XO (XO
+              (XO XH))))))))))))))))
+          (N.eqb c (Npos (XI (XO (XO (XI (XO (XI (XO (XO (XO (XO (XO (XO (XO
+            XH))))))))))))))))
+        (N.eqb c (Npos (XI (XI (XI (XI (XO (XI (XO (XO (XO (XO (XO (XO (XO
+          XH))))))))))))))))
+      (N.eqb c (Npos (XI (XI (XI (XI (XI (XO (XI (XO (XO (XO (XO (XO (XO
+        XH))))))))))))))))
+    (N.eqb c (Npos (XO (XO (XO (XO (XO (XO (XO (XO (XO (XO (XO (XO (XI
+      XH)))))))))))))))
+
+(** val is_unit_letter : n -> bool **)
+
+let is_unit_letter c =
+  (||)
+    ((||)
+      ((&&) (N.leb (Npos (XI (XO (XO (XO (XO (XI XH))))))) c)
+        (N.leb c (Npos (XO (XI (XO (XI (XI (XI XH)))))))))
+      ((&&) (N.leb (Npos (XI (XO (XO (XO (XO (XO XH))))))) c)
+        (N.leb c (Npos (XO (XI (XO (XI (XI (XO XH))))))))))
+    (N.eqb c (Npos (XI (XO (XI (XO (XI (XI (XO XH)))))))))
+
+type pstate =
+| SFirst
+| SNum of n
+| SUnit of n * n list
+
+type pres =
+| DOk of n * n
+| DErr
+| DUnsupported
+
+(** val pgo : n list -> pstate -> (n * n) -> bool -> pres **)
+
+let rec pgo s st out nothing_yet =
+  match s with
+  | [] ->
+    (match st with
+     | SFirst -> if nothing_yet then DErr else DOk ((fst out), (snd out))
+     | SNum _ -> DErr
+     | SUnit (n0, u) ->
+       (match parse_unit n0 (rev u) out with
+        | Some o -> DOk ((fst o), (snd o))
+        | None -> DErr))
+  | c :: r ->
+    (match st with
+     | SFirst ->
+       if is_digit0 c
+       then pgo r (SNum (N.sub c (Npos (XO (XO (XO (XO (XI XH)))))))) out
+              false
+       else if is_white0 c then pgo r SFirst out nothing_yet else DErr
+     | SNum n0 ->
+       if is_digit0 c
+       then (match chk
+                     (N.add (N.mul n0 (Npos (XO (XI (XO XH)))))
+                       (N.sub c (Npos (XO (XO (XO (XO (XI XH)))))))) with
+             | Some n' -> pgo r (SNum n') out false
+             | None -> DErr)
+       else if is_white0 c
+            then pgo r (SNum n0) out false
+            else if is_unit_letter c
+                 then pgo r (SUnit (n0, (c :: []))) out false
+                 else if N.eqb c (Npos (XO (XI (XI (XI (XO XH))))))
+                      then DUnsupported
+                      else DErr
+     | SUnit (n0, u) ->
+       if is_digit0 c
+       then (match parse_unit n0 (rev u) out with
+             | Some o ->
+               pgo r (SNum (N.sub c (Npos (XO (XO (XO (XO (XI XH)))))))) o
+                 false
+             | None -> DErr)
+       else if is_white0 c
+            then (match parse_unit n0 (rev u) out with
+                  | Some o -> pgo r SFirst o false
+                  | None -> DErr)
+            else if is_unit_letter c
+                 then pgo r (SUnit (n0, (c :: u))) out false
+                 else DErr)
+
+(** val parse_duration : n list -> pres **)
+
+let parse_duration s =
+  if text_eqb s ((Npos (XO (XO (XO (XO (XI XH)))))) :: [])
+  then DOk (N0, N0)
+  else pgo s SFirst (N0, N0) true
+
+type ycfg = { y_os : n option; y_kc : bool option; y_to : (n * n) option;
+              y_de : bool option; y_sk : z option; y_sa : bool option;
+              y_wa : ((n * n) * n list option) option;
+              y_env : (n list * n list) list }
+
+(** val yempty : ycfg **)
+
+let yempty =
+  { y_os = None; y_kc = None; y_to = None; y_de = None; y_sk = None; y_sa =
+    None; y_wa = None; y_env = [] }
+
+(** val k_OS : n list **)
+
+let k_OS =
+  (Npos (XI (XI (XI (XI (XO (XI XH))))))) :: ((Npos (XI (XO (XI (XO (XI (XI
+    XH))))))) :: ((Npos (XO (XO (XI (XO (XI (XI XH))))))) :: ((Npos (XO (XO
+    (XO (XO (XI (XI XH))))))) :: ((Npos (XI (XO (XI (XO (XI (XI
+    XH))))))) :: ((Npos (XO (XO (XI (XO (XI (XI XH))))))) :: ((Npos (XI (XI
+    (XI (XI (XI (XO XH))))))) :: ((Npos (XI (XI (XO (XO (XI (XI
+    XH))))))) :: ((Npos (XO (XO (XI (XO (XI (XI XH))))))) :: ((Npos (XO (XI
+    (XO (XO (XI (XI XH))))))) :: ((Npos (XI (XO (XI (XO (XO (XI
+    XH))))))) :: ((Npos (XI (XO (XO (XO (XO (XI XH))))))) :: ((Npos (XI (XO
+    (XI (XI (XO (XI XH))))))) :: []))))))))))))
+
+(** val k_KC : n list **)
+
+let k_KC =
+  (Npos (XI (XI (XO (XI (XO (XI XH))))))) :: ((Npos (XI (XO (XI (XO (XO (XI
+    XH))))))) :: ((Npos (XI (XO (XI (XO (XO (XI XH))))))) :: ((Npos (XO (XO
+    (XO (XO (XI (XI XH))))))) :: ((Npos (XI (XI (XI (XI (XI (XO
+    XH))))))) :: ((Npos (XI (XI (XO (XO (XO (XI XH))))))) :: ((Npos (XO (XI
+    (XO (XO (XI (XI XH))))))) :: ((Npos (XO (XO (XI (XI (XO (XI
+    XH))))))) :: ((Npos (XO (XI (XI (XO (XO (XI XH))))))) :: []))))))))
+
+(** val k_TO : n list **)
+
+let k_TO =
+  (Npos (XO (XO (XI (XO (XI (XI XH))))))) :: ((Npos (XI (XO (XO (XI (XO (XI
+    XH))))))) :: ((Npos (XI (XO (XI (XI (XO (XI XH))))))) :: ((Npos (XI (XO
+    (XI (XO (XO (XI XH))))))) :: ((Npos (XI (XI (XI (XI (XO (XI
+    XH))))))) :: ((Npos (XI (XO (XI (XO (XI (XI XH))))))) :: ((Npos (XO (XO
+    (XI (XO (XI (XI XH))))))) :: []))))))
+
+(** val k_DE : n list **)
+
+let k_DE =
+  (Npos (XO (XO (XI (XO (XO (XI XH))))))) :: ((Npos (XI (XO (XI (XO (XO (XI
+    XH))))))) :: ((Npos (XO (XO (XI (XO (XI (XI XH))))))) :: ((Npos (XI (XO
+    (XO (XO (XO (XI XH))))))) :: ((Npos (XI (XI (XO (XO (XO (XI
+    XH))))))) :: ((Npos (XO (XO (XO (XI (XO (XI XH))))))) :: ((Npos (XI (XO
+    (XI (XO (XO (XI XH))))))) :: ((Npos (XO (XO (XI (XO (XO (XI
+    XH))))))) :: [])))))))
+
+(** val k_SK : n list **)
+
+let k_SK =
+  (Npos (XI (XI (XO (XO (XI (XI XH))))))) :: ((Npos (XI (XI (XO (XI (XO (XI
+    XH))))))) :: ((Npos (XI (XO (XO (XI (XO (XI XH))))))) :: ((Npos (XO (XO
+    (XO (XO (XI (XI XH))))))) :: ((Npos (XI (XI (XI (XI (XI (XO
+    XH))))))) :: ((Npos (XO (XO (XI (XO (XO (XI XH))))))) :: ((Npos (XI (XI
+    (XI (XI (XO (XI XH))))))) :: ((Npos (XI (XI (XO (XO (XO (XI
+    XH))))))) :: ((Npos (XI (XO (XI (XO (XI (XI XH))))))) :: ((Npos (XI (XO
+    (XI (XI (XO (XI XH))))))) :: ((Npos (XI (XO (XI (XO (XO (XI
+    XH))))))) :: ((Npos (XO (XI (XI (XI (XO (XI XH))))))) :: ((Npos (XO (XO
+    (XI (XO (XI (XI XH))))))) :: ((Npos (XI (XI (XI (XI (XI (XO
+    XH))))))) :: ((Npos (XI (XI (XO (XO (XO (XI XH))))))) :: ((Npos (XI (XI
+    (XI (XI (XO (XI XH))))))) :: ((Npos (XO (XO (XI (XO (XO (XI
+    XH))))))) :: ((Npos (XI (XO (XI (XO (XO (XI
+    XH))))))) :: [])))))))))))))))))
+
+(** val k_SA : n list **)
+
+let k_SA =
+  (Npos (XI (XI (XO (XO (XI (XI XH))))))) :: ((Npos (XO (XO (XI (XO (XI (XI
+    XH))))))) :: ((Npos (XO (XI (XO (XO (XI (XI XH))))))) :: ((Npos (XI (XO
+    (XO (XI (XO (XI XH))))))) :: ((Npos (XO (XO (XO (XO (XI (XI
+    XH))))))) :: ((Npos (XI (XI (XI (XI (XI (XO XH))))))) :: ((Npos (XI (XO
+    (XO (XO (XO (XI XH))))))) :: ((Npos (XO (XI (XI (XI (XO (XI
+    XH))))))) :: ((Npos (XI (XI (XO (XO (XI (XI XH))))))) :: ((Npos (XI (XO
+    (XO (XI (XO (XI XH))))))) :: ((Npos (XI (XI (XI (XI (XI (XO
+    XH))))))) :: ((Npos (XI (XO (XI (XO (XO (XI XH))))))) :: ((Npos (XI (XI
+    (XO (XO (XI (XI XH))))))) :: ((Npos (XI (XI (XO (XO (XO (XI
+    XH))))))) :: ((Npos (XI (XO (XO (XO (XO (XI XH))))))) :: ((Npos (XO (XO
+    (XO (XO (XI (XI XH))))))) :: ((Npos (XI (XO (XO (XI (XO (XI
+    XH))))))) :: ((Npos (XO (XI (XI (XI (XO (XI XH))))))) :: ((Npos (XI (XI
+    (XI (XO (XO (XI XH))))))) :: []))))))))))))))))))
+
+(** val k_WA : n list **)
+
+let k_WA =
+  (Npos (XI (XI (XI (XO (XI (XI XH))))))) :: ((Npos (XI (XO (XO (XO (XO (XI
+    XH))))))) :: ((Npos (XI (XO (XO (XI (XO (XI XH))))))) :: ((Npos (XO (XO
+    (XI (XO (XI (XI XH))))))) :: [])))
+
+(** val k_ENV : n list **)
+
+let k_ENV =
+  (Npos (XI (XO (XI (XO (XO (XI XH))))))) :: ((Npos (XO (XI (XI (XI (XO (XI
+    XH))))))) :: ((Npos (XO (XI (XI (XO (XI (XI XH))))))) :: ((Npos (XI (XO
+    (XO (XI (XO (XI XH))))))) :: ((Npos (XO (XI (XO (XO (XI (XI
+    XH))))))) :: ((Npos (XI (XI (XI (XI (XO (XI XH))))))) :: ((Npos (XO (XI
+    (XI (XI (XO (XI XH))))))) :: ((Npos (XI (XO (XI (XI (XO (XI
+    XH))))))) :: ((Npos (XI (XO (XI (XO (XO (XI XH))))))) :: ((Npos (XO (XI
+    (XI (XI (XO (XI XH))))))) :: ((Npos (XO (XO (XI (XO (XI (XI
+    XH))))))) :: []))))))))))
+
+(** val t_TRUE : n list **)
+
+let t_TRUE =
+  (Npos (XO (XO (XI (XO (XI (XI XH))))))) :: ((Npos (XO (XI (XO (XO (XI (XI
+    XH))))))) :: ((Npos (XI (XO (XI (XO (XI (XI XH))))))) :: ((Npos (XI (XO
+    (XI (XO (XO (XI XH))))))) :: [])))
+
+(** val t_FALSE : n list **)
+
+let t_FALSE =
+  (Npos (XO (XI (XI (XO (XO (XI XH))))))) :: ((Npos (XI (XO (XO (XO (XO (XI
+    XH))))))) :: ((Npos (XO (XO (XI (XI (XO (XI XH))))))) :: ((Npos (XI (XI
+    (XO (XO (XI (XI XH))))))) :: ((Npos (XI (XO (XI (XO (XO (XI
+    XH))))))) :: []))))
+
+(** val t_STDOUT : n list **)
+
+let t_STDOUT =
+  (Npos (XI (XI (XO (XO (XI (XI XH))))))) :: ((Npos (XO (XO (XI (XO (XI (XI
+    XH))))))) :: ((Npos (XO (XO (XI (XO (XO (XI XH))))))) :: ((Npos (XI (XI
+    (XI (XI (XO (XI XH))))))) :: ((Npos (XI (XO (XI (XO (XI (XI
+    XH))))))) :: ((Npos (XO (XO (XI (XO (XI (XI XH))))))) :: [])))))
+
+(** val t_STDERR : n list **)
+
+let t_STDERR =
+  (Npos (XI (XI (XO (XO (XI (XI XH))))))) :: ((Npos (XO (XO (XI (XO (XI (XI
+    XH))))))) :: ((Npos (XO (XO (XI (XO (XO (XI XH))))))) :: ((Npos (XI (XO
+    (XI (XO (XO (XI XH))))))) :: ((Npos (XO (XI (XO (XO (XI (XI
+    XH))))))) :: ((Npos (XO (XI (XO (XO (XI (XI XH))))))) :: [])))))
+
+(** val t_COMBINED : n list **)
+
+let t_COMBINED =
+  (Npos (XI (XI (XO (XO (XO (XI XH))))))) :: ((Npos (XI (XI (XI (XI (XO (XI
+    XH))))))) :: ((Npos (XI (XO (XI (XI (XO (XI XH))))))) :: ((Npos (XO (XI
+    (XO (XO (XO (XI XH))))))) :: ((Npos (XI (XO (XO (XI (XO (XI
+    XH))))))) :: ((Npos (XO (XI (XI (XI (XO (XI XH))))))) :: ((Npos (XI (XO
+    (XI (XO (XO (XI XH))))))) :: ((Npos (XO (XO (XI (XO (XO (XI
+    XH))))))) :: [])))))))
+
+(** val wAIT_OPEN : n list **)
+
+let wAIT_OPEN =
+  (Npos (XI (XI (XO (XI (XI (XI XH))))))) :: ((Npos (XO (XO (XI (XO (XI (XI
+    XH))))))) :: ((Npos (XI (XO (XO (XI (XO (XI XH))))))) :: ((Npos (XI (XO
+    (XI (XI (XO (XI XH))))))) :: ((Npos (XI (XO (XI (XO (XO (XI
+    XH))))))) :: ((Npos (XI (XI (XI (XI (XO (XI XH))))))) :: ((Npos (XI (XO
+    (XI (XO (XI (XI XH))))))) :: ((Npos (XO (XO (XI (XO (XI (XI
+    XH))))))) :: ((Npos (XO (XI (XO (XI (XI XH)))))) :: ((Npos (XO (XO (XO
+    (XO (XO XH)))))) :: [])))))))))
+
+(** val wAIT_PATH : n list **)
+
+let wAIT_PATH =
+  (Npos (XO (XO (XI (XI (XO XH)))))) :: ((Npos (XO (XO (XO (XO (XO
+    XH)))))) :: ((Npos (XO (XO (XO (XO (XI (XI XH))))))) :: ((Npos (XI (XO
+    (XO (XO (XO (XI XH))))))) :: ((Npos (XO (XO (XI (XO (XI (XI
+    XH))))))) :: ((Npos (XO (XO (XO (XI (XO (XI XH))))))) :: ((Npos (XO (XI
+    (XO (XI (XI XH)))))) :: ((Npos (XO (XO (XO (XO (XO XH)))))) :: [])))))))
+
+type fval =
+| FStream of n
+| FBool of bool
+| FDur of n * n
+| FInt of z
+| FWait of n * n * n list option
+| FEnv of (n list * n list) list
+
+(** val stream_name : n -> n list **)
+
+let stream_name n0 =
+  if N.eqb n0 N0
+  then t_STDOUT
+  else if N.eqb n0 (Npos XH) then t_STDERR else t_COMBINED
+
+(** val bool_text : bool -> n list **)
+
+let bool_text = function
+| true -> t_TRUE
+| false -> t_FALSE
+
+(** val value_text : fval -> n list **)
+
+let value_text = function
+| FStream n0 -> stream_name n0
+| FBool b -> bool_text b
+| FDur (s, ns) -> format_duration s ns
+| FInt z0 -> decz z0
+| FWait (s, ns, path0) ->
+  (match path0 with
+   | Some p ->
+     app wAIT_OPEN
+       (app (format_duration s ns)
+         (app wAIT_PATH
+           (app (yaml_scalar p) ((Npos (XI (XO (XI (XI (XI (XI
+             XH))))))) :: []))))
+   | None -> format_duration s ns)
+| FEnv e -> env_text e
+
+(** val entry_text : (n list * fval) -> n list **)
+
+let entry_text kv =
+  app (fst kv) (app cOLON (value_text (snd kv)))
+
+(** val opt_entry :
+    n list -> ('a1 -> fval) -> 'a1 option -> (n list * fval) list **)
+
+let opt_entry k f = function
+| Some x -> (k, (f x)) :: []
+| None -> []
+
+(** val entries_of : ycfg -> (n list * fval) list **)
+
+let entries_of c =
+  app (opt_entry k_OS (fun x -> FStream x) c.y_os)
+    (app (opt_entry k_KC (fun x -> FBool x) c.y_kc)
+      (app (opt_entry k_TO (fun d -> FDur ((fst d), (snd d))) c.y_to)
+        (app (opt_entry k_DE (fun x -> FBool x) c.y_de)
+          (app (opt_entry k_SK (fun x -> FInt x) c.y_sk)
+            (app (opt_entry k_SA (fun x -> FBool x) c.y_sa)
+              (app
+                (opt_entry k_WA (fun w -> FWait ((fst (fst w)),
+                  (snd (fst w)), (snd w))) c.y_wa)
+                (match c.y_env with
+                 | [] -> []
+                 | p :: l -> (k_ENV, (FEnv (p :: l))) :: [])))))))
+
+(** val one_liner : ycfg -> n list **)
+
+let one_liner c =
+  app ((Npos (XI (XI (XO (XI (XI (XI XH))))))) :: [])
+    (app (join_sep (map entry_text (entries_of c))) ((Npos (XI (XO (XI (XI
+      (XI (XI XH))))))) :: []))
+
+(** val take_plain : n list -> n list * n list **)
+
+let rec take_plain s = match s with
+| [] -> ([], [])
+| c :: r ->
+  if (||) (N.eqb c (Npos (XO (XO (XI (XI (XO XH)))))))
+       (N.eqb c (Npos (XI (XO (XI (XI (XI (XI XH))))))))
+  then ([], s)
+  else let (a, b) = take_plain r in ((c :: a), b)
+
+(** val ystrip : n list -> n list -> n list option **)
+
+let rec ystrip p s =
+  match p with
+  | [] -> Some s
+  | a :: p' ->
+    (match s with
+     | [] -> None
+     | b :: s' -> if N.eqb a b then ystrip p' s' else None)
+
+(** val read_dur : n list -> ((n * n) * n list) option **)
+
+let read_dur s =
+  let (t, r) = take_plain s in
+  (match parse_duration t with
+   | DOk (a, b) -> Some ((a, b), r)
+   | _ -> None)
+
+(** val read_bool : n list -> (bool * n list) option **)
+
+let read_bool s =
+  let (t, r) = take_plain s in
+  if text_eqb t t_TRUE
+  then Some (true, r)
+  else if text_eqb t t_FALSE then Some (false, r) else None
+
+(** val read_stream : n list -> (n * n list) option **)
+
+let read_stream s =
+  let (t, r) = take_plain s in
+  if text_eqb t t_STDOUT
+  then Some (N0, r)
+  else if text_eqb t t_STDERR
+       then Some ((Npos XH), r)
+       else if text_eqb t t_COMBINED then Some ((Npos (XO XH)), r) else None
+
+(** val read_flow_scalar : n list -> (n list * n list) option **)
+
+let read_flow_scalar s =
+  if head_is (Npos (XO (XI (XO (XO (XO XH)))))) s
+  then rq QN [] (tl s)
+  else Some (take_plain s)
+
+type ykind =
+| KStream
+| KBool
+| KDur
+| KInt
+| KWait
+| KEnv
+
+(** val key_kind : n list -> ykind option **)
+
+let key_kind k =
+  if text_eqb k k_OS
+  then Some KStream
+  else if (||) ((||) (text_eqb k k_KC) (text_eqb k k_DE)) (text_eqb k k_SA)
+       then Some KBool
+       else if text_eqb k k_TO
+            then Some KDur
+            else if text_eqb k k_SK
+                 then Some KInt
+                 else if text_eqb k k_WA
+                      then Some KWait
+                      else if text_eqb k k_ENV then Some KEnv else None
+
+(** val read_wait : n list -> (fval * n list) option **)
+
+let read_wait s =
+  match ystrip wAIT_OPEN s with
+  | Some s1 ->
+    (match read_dur s1 with
+     | Some p ->
+       let (p0, s2) = p in
+       let (a, b) = p0 in
+       (match ystrip wAIT_PATH s2 with
+        | Some s3 ->
+          (match read_flow_scalar s3 with
+           | Some p1 ->
+             let (p2, s4) = p1 in
+             if head_is (Npos (XI (XO (XI (XI (XI (XI XH))))))) s4
+             then Some ((FWait (a, b, (Some p2))), (tl s4))
+             else None
+           | None -> None)
+        | None -> None)
+     | None -> None)
+  | None ->
+    (match read_dur s with
+     | Some p ->
+       let (p0, r) = p in let (a, b) = p0 in Some ((FWait (a, b, None)), r)
+     | None -> None)
+
+(** val read_kind : ykind -> n list -> (fval * n list) option **)
+
+let read_kind kd s =
+  match kd with
+  | KStream ->
+    (match read_stream s with
+     | Some p -> let (n0, r) = p in Some ((FStream n0), r)
+     | None -> None)
+  | KBool ->
+    (match read_bool s with
+     | Some p -> let (b, r) = p in Some ((FBool b), r)
+     | None -> None)
+  | KDur ->
+    (match read_dur s with
+     | Some p -> let (p0, r) = p in let (a, b) = p0 in Some ((FDur (a, b)), r)
+     | None -> None)
+  | KInt ->
+    let (t, r) = take_plain s in
+    (match parse_i32 t with
+     | Some z0 -> Some ((FInt z0), r)
+     | None -> None)
+  | KWait -> read_wait s
+  | KEnv ->
+    (match read_env s with
+     | Some p -> let (e, r) = p in Some ((FEnv e), r)
+     | None -> None)
+
+(** val read_fval : n list -> n list -> (fval * n list) option **)
+
+let read_fval k s =
+  match key_kind k with
+  | Some kd -> read_kind kd s
+  | None -> None
+
+(** val read_items :
+    nat -> n list -> ((n list * fval) list * n list) option **)
+
+let rec read_items fuel s =
+  match fuel with
+  | O -> None
+  | S f ->
+    (match split_colon s with
+     | Some p ->
+       let (k, r1) = p in
+       (match read_fval k r1 with
+        | Some p0 ->
+          let (v, r2) = p0 in
+          if head_is (Npos (XI (XO (XI (XI (XI (XI XH))))))) r2
+          then Some (((k, v) :: []), (tl r2))
+          else if starts2 (Npos (XO (XO (XI (XI (XO XH)))))) (Npos (XO (XO
+                    (XO (XO (XO XH)))))) r2
+               then (match read_items f (skipn (S (S O)) r2) with
+                     | Some p1 ->
+                       let (m, rest) = p1 in Some (((k, v) :: m), rest)
+                     | None -> None)
+               else None
+        | None -> None)
+     | None -> None)
+
+(** val read_mapping : n list -> ((n list * fval) list * n list) option **)
+
+let read_mapping s =
+  if head_is (Npos (XI (XI (XO (XI (XI (XI XH))))))) s
+  then if head_is (Npos (XI (XO (XI (XI (XI (XI XH))))))) (tl s)
+       then Some ([], (tl (tl s)))
+       else read_items (length s) (tl s)
+  else None
+
+(** val set_field : ycfg -> (n list * fval) -> ycfg option **)
+
+let set_field c = function
+| (k, v) ->
+  (match v with
+   | FStream n0 ->
+     if text_eqb k k_OS
+     then (match c.y_os with
+           | Some _ -> None
+           | None ->
+             Some { y_os = (Some n0); y_kc = c.y_kc; y_to = c.y_to; y_de =
+               c.y_de; y_sk = c.y_sk; y_sa = c.y_sa; y_wa = c.y_wa; y_env =
+               c.y_env })
+     else None
+   | FBool b ->
+     if text_eqb k k_KC
+     then (match c.y_kc with
+           | Some _ -> None
+           | None ->
+             Some { y_os = c.y_os; y_kc = (Some b); y_to = c.y_to; y_de =
+               c.y_de; y_sk = c.y_sk; y_sa = c.y_sa; y_wa = c.y_wa; y_env =
+               c.y_env })
+     else if text_eqb k k_DE
+          then (match c.y_de with
+                | Some _ -> None
+                | None ->
+                  Some { y_os = c.y_os; y_kc = c.y_kc; y_to = c.y_to; y_de =
+                    (Some b); y_sk = c.y_sk; y_sa = c.y_sa; y_wa = c.y_wa;
+                    y_env = c.y_env })
+          else if text_eqb k k_SA
+               then (match c.y_sa with
+                     | Some _ -> None
+                     | None ->
+                       Some { y_os = c.y_os; y_kc = c.y_kc; y_to = c.y_to;
+                         y_de = c.y_de; y_sk = c.y_sk; y_sa = (Some b);
+                         y_wa = c.y_wa; y_env = c.y_env })
+               else None
+   | FDur (a, b) ->
+     if text_eqb k k_TO
+     then (match c.y_to with
+           | Some _ -> None
+           | None ->
+             Some { y_os = c.y_os; y_kc = c.y_kc; y_to = (Some (a, b));
+               y_de = c.y_de; y_sk = c.y_sk; y_sa = c.y_sa; y_wa = c.y_wa;
+               y_env = c.y_env })
+     else None
+   | FInt z0 ->
+     if text_eqb k k_SK
+     then (match c.y_sk with
+           | Some _ -> None
+           | None ->
+             Some { y_os = c.y_os; y_kc = c.y_kc; y_to = c.y_to; y_de =
+               c.y_de; y_sk = (Some z0); y_sa = c.y_sa; y_wa = c.y_wa;
+               y_env = c.y_env })
+     else None
+   | FWait (a, b, p) ->
+     if text_eqb k k_WA
+     then (match c.y_wa with
+           | Some _ -> None
+           | None ->
+             Some { y_os = c.y_os; y_kc = c.y_kc; y_to = c.y_to; y_de =
+               c.y_de; y_sk = c.y_sk; y_sa = c.y_sa; y_wa = (Some ((a, b),
+               p)); y_env = c.y_env })
+     else None
+   | FEnv e ->
+     if text_eqb k k_ENV
+     then (match c.y_env with
+           | [] ->
+             Some { y_os = c.y_os; y_kc = c.y_kc; y_to = c.y_to; y_de =
+               c.y_de; y_sk = c.y_sk; y_sa = c.y_sa; y_wa = c.y_wa; y_env =
+               e }
+           | _ :: _ -> None)
+     else None)
+
+(** val assemble : (n list * fval) list -> ycfg -> ycfg option **)
+
+let rec assemble l c =
+  match l with
+  | [] -> Some c
+  | kv :: r ->
+    (match set_field c kv with
+     | Some c' -> assemble r c'
+     | None -> None)
+
+(** val read_one_liner : n list -> ycfg option **)
+
+let read_one_liner s =
+  match read_mapping s with
+  | Some p ->
+    let (l, l0) = p in
+    (match l0 with
+     | [] -> assemble l yempty
+     | _ :: _ -> None)
+  | None -> None
+
 (** val make_exp : bool -> bool -> (nat -> bool) -> nat exp **)
 
 let make_exp o m f =
